@@ -203,6 +203,15 @@ func baseAlloc(v ssa.Value) *ssa.Alloc {
 // privateField: field of a struct declared outside the module that is
 // unexported and is being accessed by code of the declaring package (a cache
 // the type keeps for itself).
+func syncTyped(t types.Type) bool {
+	if n, ok := types.Unalias(t).(*types.Named); ok && n.Obj().Pkg() != nil {
+		if p := n.Obj().Pkg().Path(); p == "sync" || p == "sync/atomic" {
+			return true
+		}
+	}
+	return false
+}
+
 func (rc *rootCtx) privateField(fa *ssa.FieldAddr) bool {
 	fv := fieldVar(fa)
 	// synchronisation state (mutexes, atomics, Once, Pool) is not data
@@ -221,6 +230,27 @@ func (rc *rootCtx) privateField(fa *ssa.FieldAddr) bool {
 		return false
 	}
 	return rc.f.Pkg != nil && rc.f.Pkg.Pkg == fv.Pkg()
+}
+
+// throughPrivate: the address is (a part of) memory reached through a private
+// field in the sense of privateField.
+func (rc *rootCtx) throughPrivate(addr ssa.Value, d int) bool {
+	if d > 12 {
+		return false
+	}
+	switch x := addr.(type) {
+	case *ssa.FieldAddr:
+		return rc.privateField(x) || rc.throughPrivate(x.X, d+1)
+	case *ssa.IndexAddr:
+		return rc.throughPrivate(x.X, d+1)
+	case *ssa.Slice:
+		return rc.throughPrivate(x.X, d+1)
+	case *ssa.UnOp:
+		if x.Op == token.MUL {
+			return rc.throughPrivate(x.X, d+1)
+		}
+	}
+	return false
 }
 
 func (rc *rootCtx) roots(v ssa.Value) *RootSet {
@@ -247,7 +277,8 @@ func (rc *rootCtx) roots(v ssa.Value) *RootSet {
 	case *ssa.Alloc:
 		// the address of a local: pointee is local memory
 	case *ssa.FieldAddr:
-		if !rc.privateField(x) {
+		// synchronisation state (mutexes, atomics, Once, Pool) is not data
+		if !syncTyped(fieldVar(x).Type()) {
 			r.add(rc.roots(x.X))
 		}
 	case *ssa.IndexAddr:
@@ -462,6 +493,14 @@ func (e *Effects) analyse(f *ssa.Function) bool {
 		}
 	}
 	write := func(addr ssa.Value, pos token.Pos, desc string) {
+		if rc.throughPrivate(addr, 0) {
+			// the declaring package updating a cache it keeps in its own
+			// unexported field (zcrypto's memoised parses, sync state): not a
+			// write to the object's data. Only the store is excused — the value
+			// read back from such a field still aliases the object, so a lint
+			// writing through what a getter returned is seen.
+			return
+		}
 		r := rc.roots(addr)
 		if r.empty() {
 			return
